@@ -29,6 +29,10 @@ where
     fn sem(op: &<Self as CmRDT>::Op, actor: u8) -> Sem;
     /// content (no contexts), same rendering as dotstore::Store::value
     fn value(v: &Self) -> Value;
+    /// (member, actor, counter) for every dot of every present member's own remove context; empty for non-set values
+    fn witnesses(_v: &Self) -> Vec<(String, u8, u64)> {
+        Vec::new()
+    }
     fn apply_n(v: &mut Self, op: <Self as CmRDT>::Op) {
         v.apply(op)
     }
@@ -79,6 +83,17 @@ impl Nested for Orswot<u8, u8> {
     }
     fn value(v: &Self) -> Value {
         crate::subject::orswot::nested_set_value(v)
+    }
+    fn witnesses(v: &Self) -> Vec<(String, u8, u64)> {
+        let mut out = Vec::new();
+        let mut members: Vec<u8> = v.read().val.into_iter().collect();
+        members.sort();
+        for m in members {
+            for (a, n) in vclock_to(&v.contains(&m).rm_clock) {
+                out.push((format!("member:{m}"), a, n));
+            }
+        }
+        out
     }
     fn render_op_err(e: &<Self as CmRDT>::Validation) -> String {
         render_dot_range(e)
@@ -342,6 +357,17 @@ where
     }
     fn validate_op(s: &Self::St, op: &Self::Op) -> Result<(), String> {
         s.validate_op(op).map_err(|e| render_map_op_err::<N>(&e))
+    }
+    fn nested_witnesses(s: &Self::St) -> Vec<(String, Clock, Vec<(String, u8, u64)>)> {
+        let mut keys: Vec<u8> = s.keys().map(|k| *k.val).collect();
+        keys.sort();
+        keys.into_iter()
+            .filter_map(|k| {
+                let g = s.get(&k);
+                let wit = vclock_to(&g.rm_clock);
+                g.val.as_ref().map(|v| (format!("key:{k}"), wit, N::witnesses(v)))
+            })
+            .collect()
     }
     fn validate_merge(a: &Self::St, b: &Self::St) -> Result<(), String> {
         a.validate_merge(b).map_err(|e| render_map_merge_err::<N>(&e))
